@@ -23,7 +23,7 @@ MANIFEST = {
     "note": "Tolerance 6 degrees (observed worst 3.3 degrees with the Gaussian-tapered disc window; a hard-edged disc gives up to 4.5). The tower is placed with the harness' own equirectangular formula; its returned local position is required to be within 1 m of the domain centre.",
 }
 
-GRIDS = {"square": (32, 32, 400.0, 400.0), "oblong": (32, 48, 400.0, 600.0), "aniso": (48, 32, 300.0, 400.0),
+GRIDS = {"small": (16, 16, 320.0, 320.0), "square": (32, 32, 400.0, 400.0), "oblong": (32, 48, 400.0, 600.0), "aniso": (48, 32, 300.0, 400.0),
          # a low mast (2 m) in a domain several hundred measurement heights long, as needed to hold a stable-night footprint
          "low-mast": (96, 64, 1200.0, 800.0)}
 LOW = {"zm": 2.0, "nz": 16, "ustar": 0.25}
@@ -34,9 +34,9 @@ TOL_DEG = 6.0
 def configs(tier):
     if tier == "quick":
         cyc = itertools.cycle([("MOST", -100.0, 4.0), ("MOSTM", 50.0, 2.0), ("CONSTANT", 1e9, 6.0), ("MOST", 1e9, 2.0), ("MOSTM", -100.0, 6.0)])
-        sel = [(g, o) + next(cyc) for g, o in itertools.product([g for g in GRIDS if g != "low-mast"], ORIGINS)]
+        sel = [(g, o) + next(cyc) for g, o in itertools.product([g for g in GRIDS if g not in ("low-mast", "small")], ORIGINS)]
     else:
-        sel = list(itertools.product([g for g in GRIDS if g != "low-mast"], ORIGINS, ("MOST", "MOSTM", "CONSTANT"), (-100.0, 1e9, 50.0), (2.0, 6.0)))
+        sel = list(itertools.product([g for g in GRIDS if g not in ("low-mast", "small")], ORIGINS, ("MOST", "MOSTM", "CONSTANT"), (-100.0, 1e9, 50.0), (2.0, 6.0)))
     for g, o, clo, L, ws in sel:
         yield {"grid": g, "origin": o, "closure": clo, "mol": L, "speed": ws}
     # the literal statement (centre of mass of the WHOLE returned footprint) for the low mast, no halo configured
@@ -198,6 +198,44 @@ def case_routes(case):
     return {"v": v, "nt": len(dirs), "key": core.canon(case), "n": len(dirs), "obs": {"worst_bearing_error_deg": round(worst, 2)}}
 
 
+def case_cache_race(case):
+    """two sessions (forked workers) computing footprints for OPPOSITE wind directions store into one cache directory at the
+    same time - every preemption-bounded interleaving of their file operations; their footprints, and those a later cached
+    run is served, still lie upwind of the tower"""
+    from bldfm.cache import GreensFunctionCache
+    from bldfm.interface import run_bldfm_single
+    from vf import cacherace
+
+    nx, ny, xmax, ymax = GRIDS["small"]
+    base = {"grid": "small", "origin": "NE", "closure": "MOST", "mol": -100.0, "speed": 4.0}
+    wds = case["dirs"]
+    cfgs = {"wd%d" % wd: make_cfg(base, wd) for wd in wds}
+    run_bldfm_single(cfgs["wd%d" % wds[0]], cfgs["wd%d" % wds[0]].towers[0])  # load the compiled kernels once, before the workers are forked
+
+    def berr(label, r):
+        wd = int(label[2:])
+        b, e = _bearing_error(dict(r, tower_xy=(xmax / 2, ymax / 2)), xmax, ymax, wd)
+        return None if e <= TOL_DEG else "wind_dir=%d: footprint centre of mass at bearing %.1f (error %.1f deg)" % (wd, b, e)
+
+    def mk(label):
+        def run(cdir):
+            cfg = cfgs[label]
+            r = run_bldfm_single(cfg, cfg.towers[0], cache=GreensFunctionCache(cdir))
+            return {"grid": r["grid"], "flx": r["flx"]}
+        return run
+
+    def after(cdir):
+        msgs = []
+        cache = GreensFunctionCache(cdir)
+        for label, cfg in cfgs.items():
+            m = berr(label, run_bldfm_single(cfg, cfg.towers[0], cache=cache))
+            if m:
+                msgs.append("a later cached run: " + m)
+        return msgs
+
+    return cacherace.explore([(label, mk(label)) for label in cfgs], berr, after, bound=2, what="footprints for wind directions %r" % (wds,))
+
+
 def run(ctx):
     core.warm_numba()
     ctx.rule = (
@@ -210,4 +248,5 @@ def run(ctx):
     res += ctx.run_cases(case_series, sc, sub="series-drivers", chunksize=1)
     res += ctx.run_cases(case_routes, [{"origin": o, "route": rt, "driver": d, "start": st} for (o, st), rt, d in itertools.product((("NE", 10), ("SW", 25)), ("dataclasses-own-tower", "after-rejected-replace"), ("single", "timeseries"))],
                          sub="configuration from dataclasses / after a rejected construction", chunksize=1)
+    core.run_forked(ctx, case_cache_race, [{"dirs": [20, 200]}], sub="two sessions sharing the cache directory (all interleavings, <= 2 preemptions)", nproc=4, timeout=1800)
     ctx.cov["worst_bearing_error_deg"] = max([r.get("obs", {}).get("worst_bearing_error_deg", 0) for r in res] + [0])
